@@ -721,3 +721,54 @@ fn m_wind_down() {
     assert!(task.tx_msg_tx.is_closed(), "C08.queue_closed: nothing can be queued for sending any more");
     core::mem::forget((sa, crx, brx, task, con_rx, dgram_rx));
 }
+
+/// a writer blocked on zero credit when the connection (or the flow) ends: once writes are forbidden
+/// the next poll fails with BrokenPipe -- it does not keep waiting for credit that will never come
+#[cfg_attr(kani, kani::proof)]
+#[cfg_attr(kani, kani::stub(catch_unwind, call_through))]
+#[cfg_attr(kani, kani::unwind(4))]
+#[cfg_attr(verif_replay, test)]
+fn m_blocked_writer_released_on_teardown() {
+    let w = world(4, 2, false, 1);
+    let credit: u32 = kani::any();
+    let (s, d) = w.task.new_stream_shared(A, credit, Bytes::new(), 0);
+    let c = cx();
+    let first = s.poll_obtain_write_permission(&c);
+    kani::cover!(matches!(first, Poll::Pending));
+    // what wind_down / close_flow_local do to every established slot
+    d.disallow_write();
+    let again = s.poll_obtain_write_permission(&c);
+    assert!(matches!(again, Poll::Ready(None)), "C08.blocked_writer.released: after the connection or flow ended a blocked (or later) write fails with BrokenPipe whatever the credit");
+    assert!(matches!(s.poll_write_push(&c, b"x"), Poll::Ready(None)), "C08.blocked_writer.no_send");
+    core::mem::forget((s, d, w));
+}
+
+/// a stale stream handle dropped after its id was re-used must not disturb the new stream
+/// (peer Reset A; peer Connect A again; the application drops the OLD handle)
+#[cfg_attr(kani, kani::proof)]
+#[cfg_attr(kani, kani::stub(catch_unwind, call_through))]
+#[cfg_attr(kani, kani::unwind(7))]
+#[cfg_attr(verif_replay, test)]
+fn m_stale_handle_drop_after_reuse() {
+    let w = world(4, 2, false, 1);
+    let (old, da) = w.task.new_stream_shared(A, 3, Bytes::new(), 0);
+    w.task.flows.write().insert(A, FlowSlot::Established(da));
+    let r = poll_once(w.task.process_frame(Frame::new_reset(A), false));
+    core::mem::forget(r);
+    let r = poll_once(w.task.process_frame(connect_frame(b"h", 1, A, 5), false));
+    core::mem::forget(r);
+    let World { task, mut tx_msg_rx, mut dropped_rx, mut con_rx, dgram_rx, bnd_rx } = w;
+    let new = con_rx.try_recv();
+    let seen = next_seen(&mut tx_msg_rx); // the Acknowledge of the new stream
+    assert!(seen.op == 1 && seen.id == A, "C06.stale_drop.setup");
+    drop(old); // the application lets go of the aborted stream
+    let p = poll_once(task.process_dropped_flows_task(&mut dropped_rx));
+    core::mem::forget(p);
+    assert!(out_empty(&mut tx_msg_rx), "C06.stale_drop.no_reset: dropping the handle of an already aborted stream must not reset the stream that re-uses its id");
+    assert!(matches!(task.flows.read().get(&A), Some(FlowSlot::Established(_))), "C06.stale_drop.undisturbed: the new stream keeps its slot");
+    match &new {
+        Ok(s) => assert!(!s.finish_sent.load(Ordering::Relaxed), "C06.stale_drop.writable: and stays writable"),
+        Err(_) => assert!(false, "C06.stale_drop.setup2"),
+    }
+    core::mem::forget((new, task, tx_msg_rx, dropped_rx, con_rx, dgram_rx, bnd_rx));
+}
